@@ -111,10 +111,23 @@ def check_validate_funds(ctx, model):
             at = cond_at(v, c)
             oa, ob = v.origins_of_operand(c.a, at=at), v.origins_of_operand(c.b, at=at)
             wl = lambda os_: bool(os_) and any(o.kind == "load" and "bonding_assets" in o.proj and "denom" in o.proj for o in os_) and all(
-                (o.kind == "load" and "bonding_assets" in o.proj) or (o.kind == "call" and o.a.endswith("String::new")) for o in os_)
+                (o.kind == "load" and "bonding_assets" in o.proj) or (o.kind == "call" and o.a.endswith("String::new")) or (o.kind == "const" and str(o.a) in ("", "''")) for o in os_)
             dd = lambda os_: bool(os_) and all(o.kind == "param" and "String" in v.local_ty(o.a) and not o.proj for o in os_)
             if (wl(oa) and dd(ob)) or (wl(ob) and dd(oa)):
                 wl_pass += te if c.op == "==" else fe
+    # a flag set in the search loop and tested afterwards (`let mut found = false; .. found = true; break; .. if !found`)
+    if wl_pass:
+        for b, c, _ in switch_conds(v):
+            if c.kind not in ("place", "const") or getattr(c, "pl", None) is None or c.pl["p"]:
+                continue
+            ds = v.defs().get(c.pl["l"], [])
+            if not ds or not all(d[0] == "s" and d[3]["rv"]["r"] == "use" and d[3]["rv"]["op"]["k"] == "const" for d in ds):
+                continue
+            trues = [d for d in ds if str(d[3]["rv"]["op"].get("val")) in ("1", "true")]
+            if trues and len(trues) < len(ds) and all(v.edge_dominated(d[1], wl_pass) for d in trues):
+                t_ = v.blocks[b]["t"]
+                false_t = [tgt for val, tgt in t_["targets"] if str(val) == "0"]
+                wl_pass = wl_pass + [(b, tgt) for (_, tgt) in v.edges_from(b) if tgt not in false_t]
     if atoms["whitelisted"] is None and wl_pass and oks:
         okw = all(v.edge_dominated(ob_, wl_pass) for ob_ in oks)
         ctx.ob("C08-B1", "%s|atom|whitelisted" % VF, okw,
